@@ -131,7 +131,7 @@ def r1b(ctx, sc):
     for role, nm in EDITORS:
         fns = sc.fns(role)
         if not fns:
-            rep.vacuous.append('C08.R1b %s: no %s function in this variant (%s)' % (v.name, nm, 'a macro in the cpp skeleton' if role == 'LESS' else 'disabled by a noyy* option'))
+            c03.vac(rep, v, 'C08.R1b: no %s function in this variant (%s)' % (nm, 'yyless is a macro in the cpp skeleton; its in-action expansion is covered by a4' if role == 'LESS' else 'disabled by a noyy* option'))
             continue
         for fn in fns:
             a = sc.fa(fn); cfg = sc.prog.cfg(fn)
@@ -195,7 +195,7 @@ def r1c(ctx, sc):
             T = sc.take_sites(fn)
             ex = [why for suf, why in R1C_EXCEPT.items() if fn.name.endswith(suf)]
             if ex:
-                rep.vacuous.append('C08.R1c %s %s: excepted - %s' % (v.name, fn.name, ex[0]))
+                c03.vac(rep, v, 'C08.R1c: %s excepted - %s' % (norm(fn.name), ex[0]))
                 continue
             n += 1
             key = 'C08.R1:%s:%s:take-when-current-buffer-remains' % (skel(v), nm)
@@ -214,8 +214,8 @@ def r1c(ctx, sc):
                     isnull = d is not None and d.op == 'load' and a.loc(d.ops[0])[0] == 'local' and a.loc(d.ops[0])[1].endswith('.addr')
                 if not (about_current_buffer(sc, fn, br) or isnull): continue
                 for t in cfg.succ[b]:
-                    # the edge that leads away from the take
-                    if not any(t is x or cfg.dominates(t, x) for x in tb): allowed.add((b, t))
+                    # the edge that leads away from the take for good (no take can follow)
+                    if not any(x in T for x in cfg.reach_from_block(t)): allowed.add((b, t))
             rr = cfg.reach(first_ins(fn.entry), avoid=T, include_start=True, edge_filter=lambda b, t: (b, t) not in allowed)
             rets = [x for x in rr if x.op == 'ret']
             if rets:
@@ -293,7 +293,7 @@ def run(ctx):
         tot['R1b'] += r1b(ctx, sc)
         tot['R1c'] += r1c(ctx, sc)
         k = r2(ctx, sc)
-        if k == 0: rep.vacuous.append('C08.R2 %s: no yyunput in this variant (noyyunput)' % v.name)
+        if k == 0: c03.vac(rep, v, 'C08.R2: no yyunput in this variant (noyyunput)')
         tot['R2'] += k
     rep.require(backends == {'nr', 'r', 'cxx', 'c99', 'go'}, 'back ends analysed: %s' % sorted(backends))
     rep.setcount('variants_analysed', len(vs))
@@ -309,6 +309,7 @@ def run(ctx):
                       'line-count effects of unput/input (C09.R3)']
     rep.assumptions += ['clang -O0 IR of the instantiated skeleton is a faithful rendering of the generated C/C++ source',
                         'user actions leave yy_hold_char alone and reach the buffer only through the documented entry points']
+    c03.flush_vac(rep)
     return rep.finish('other',
         'Must-pass-through rules for the hold-character protocol on LLVM IR of %d instantiated scanner variants (nr, r, C++, c99, go): restore and '
         'take shapes are recognised by data flow (store of yy_hold_char through a tainted buffer pointer / store to yy_hold_char of a byte loaded '
